@@ -37,6 +37,7 @@ Next ==
   \/ \E n \in {1, 2} : ChildErr(1, n)
   \/ \E f \in {0, 1, 2} : ChildClose(1, f)
   \/ \E n \in {1, 2} : ChildRead(1, n)
+  \/ Interrupt
 
 Spec == Init /\ [][Next]_vars
 Export == ExportRet
